@@ -123,6 +123,16 @@ def subspaces(tier):
                 yield {'fmt': 'Mico8', 'recs': [[0x5c, 0, nw]], 'entry': None, 'opts': [], 'salt': salt}
     subs.append(('ti-dsk-and-mico8', dskmico()))
 
+    def dataseg():
+        # -segment data: the options that select and move addresses apply to the segment that is converted
+        for f in ('Moto', 'Intel', 'Intel32', 'MOS', 'Tek', 'C'):
+            for o in ([], [['-r', 'WIN']], [['-r', 'CLIP']], [['-r', '0x-0x']], [['-R', '0x100']], [['-r', 'CLIP'], ['-a']], [['-r', 'CLIP'], ['-R', '0x100']], [['-l', '4']]):
+                for st in (0x30, 0x7e):
+                    for n in (1, 5, 20):
+                        yield {'fmt': f, 'recs': [[0x31, st, n]], 'entry': None, 'opts': o, 'seg': 2}
+                yield {'fmt': f, 'recs': [[0x31, 0x30, 4], [0x31, 0x40, 6]], 'entry': None, 'opts': o, 'seg': 2}
+    subs.append(('data-segment-selected', dataseg()))
+
     def multifile():
         # several source files, each with or without an (offset) suffix
         for f in ('Moto', 'Intel', 'Intel32', 'C'):
@@ -231,14 +241,17 @@ def evaluate(case):
     recs = []
     for i, (cpu, st, ln) in enumerate(case['recs']):
         g = 2 if cpu in (0x70, 0x3b) else 4 if cpu == 0x76 else 1
-        recs.append(dict(kind='data', cpu=cpu, seg=1, gran=g, start=st, data=payload(ln * g, i * 31), short=True))
+        recs.append(dict(kind='data', cpu=cpu, seg=case.get('seg', 1), gran=g, start=st, data=payload(ln * g, i * 31), short=case.get('seg', 1) == 1))
     wr = list(recs)
+    if case.get('seg', 1) != 1:
+        # a code-segment record of the same file that the segment selection must leave out
+        wr.append(dict(kind='data', cpu=case['recs'][0][0], seg=1, gran=1, start=0x20, data=b'\xee' * 5, short=True))
     if case['entry'] is not None:
         wr.append(dict(kind='entry', entry=case['entry']))
     core.put('a.p', pfile.write(wr))
     lo = min(r['start'] for r in recs)
     hi = max(r['start'] + len(r['data']) // r['gran'] - 1 for r in recs)
-    args = []
+    args = ['-segment', 'data'] if case.get('seg', 1) == 2 else []
     win = (lo, hi)
     o_l, o_M, o_5, o_i, o_e, o_R, o_a, o_m, o_avr = 16, 1, False, 0, None, 0, False, 0, 3
     for o in case['opts']:
